@@ -24,8 +24,11 @@ def half : Rat := 1 / 2
 
 def absQ (x : Rat) : Rat := if x < 0 then -x else x
 
+/-- `std::ceil` on exact rationals -/
+def ceilQ (x : Rat) : Int := -((-x).floor)
+
 /-- integer part as returned through the pointer argument of `std::modf` (truncation toward zero) -/
-def modfInt (x : Rat) : Int := if 0 ≤ x then x.floor else x.ceil
+def modfInt (x : Rat) : Int := if 0 ≤ x then x.floor else ceilQ x
 
 /-- `java_math_round`, branch for branch -/
 def javaRound (x : Rat) : Int :=
@@ -33,10 +36,10 @@ def javaRound (x : Rat) : Int :=
   let f := absQ (x - n)
   if 0 ≤ x then
     if f < half then x.floor
-    else if half < f then x.ceil
+    else if half < f then ceilQ x
     else n + 1
   else
-    if f < half then x.ceil
+    if f < half then ceilQ x
     else if half < f then x.floor
     else n
 
